@@ -9,6 +9,9 @@ EXTENDS Integers, Sequences, TLC, FiniteSets, SequencesExt
 JT == INSTANCE JsonText WITH MaxLen <- 0, MaxDepth <- 100000000, Alpha <- {}, st <- 0, hist <- 0
 
 \* Min(S) comes from FiniteSetsExt (via SequencesExt)
+\* first non-empty result of F(1), F(2), ... F(n), each evaluated at most once (TLC does not memoise LET definitions, so a
+\* recursive operator that computed its children's results twice would be exponential in the nesting depth)
+FirstBad(F(_), n) == FoldLeft(LAMBDA acc, i : IF acc # <<>> THEN acc ELSE F(i), <<>>, [i \in 1..n |-> i])
 
 \* ================================================================= decimals on digit sequences
 \* Dec = [neg, digits, exp10] meaning (+/-) digits * 10^exp10; normal form: no leading / trailing zero digit,
@@ -208,10 +211,7 @@ Why(e, g, o) ==
     [] e.t = "narr" -> IF g.t = "null" \/ (g.t = "arr" /\ g.v = <<>>) THEN <<>> ELSE <<"kind", "narr", g.t>>
     [] e.t = "arr" -> IF g.t # "arr" THEN <<"kind", "arr", g.t>>
                       ELSE IF Len(g.v) # Len(e.v) THEN <<"arr-len">>
-                      \* (per-child results computed once: calling Why twice per level would be exponential in depth)
-                      ELSE LET rs == [i \in 1..Len(e.v) |-> Why(e.v[i], g.v[i], o)]
-                               bad == {i \in 1..Len(e.v) : rs[i] # <<>>}
-                           IN IF bad = {} THEN <<>> ELSE rs[Min(bad)]
+                      ELSE FirstBad(LAMBDA i : Why(e.v[i], g.v[i], o), Len(e.v))
     [] e.t = "obj" ->
          IF g.t # "obj" THEN <<"kind", "obj", g.t>> ELSE
          LET n == Len(e.k)
@@ -226,9 +226,7 @@ Why(e, g, o) ==
                  THEN <<"obj-missing-member", e.v[Min({i \in 1..n : Status(e.v[i], o) = "keep" /\ \A j \in 1..m : i \notin src[j]})].t>>
             \* with Sort the members appear in ascending order of the input keys (the input lists them ascending)
             ELSE IF o.sort /\ \E j \in 1..(m - 1) : \E i1 \in src[j], i2 \in src[j + 1] : i1 >= i2 THEN <<"obj-order">>
-            ELSE LET rs == [j \in 1..m |-> Why(e.v[Min(src[j])], g.v[j], o)]
-                     bad == {j \in 1..m : rs[j] # <<>>}
-                 IN IF bad = {} THEN <<>> ELSE rs[Min(bad)]
+            ELSE FirstBad(LAMBDA j : Why(e.v[Min(src[j])], g.v[j], o), m)
     [] OTHER -> <<"bad-input-node">>
 
 \* bytewise order of keys (sort.Strings); the input tree must list its keys strictly ascending
